@@ -120,6 +120,7 @@ static void tuple_of(int client, coap_addr_tuple_t *t) {
 typedef struct { char *s; size_t n, cap; } sbuf;
 static void sb_add(sbuf *b, const char *fmt, ...) {
   va_list ap;
+  if (!b->s) { b->cap = 1 << 10; b->s = (char *)malloc(b->cap); b->s[0] = 0; b->n = 0; }
   for (;;) {
     va_start(ap, fmt);
     int n = vsnprintf(b->s + b->n, b->cap - b->n, fmt, ap);
